@@ -102,13 +102,13 @@ PessimisticLock::LockSIX()  //
 void
 PessimisticLock::UnlockS()
 {
-  lock_.fetch_sub(kSLock, kRelaxed);
+  lock_.fetch_sub(kSLock, kRelease);
 }
 
 void
 PessimisticLock::UnlockSIX()
 {
-  lock_.fetch_xor(kSIXLock, kRelaxed);
+  lock_.fetch_xor(kSIXLock, kRelease);
 }
 
 void
@@ -176,7 +176,7 @@ PessimisticLock::SIXGuard::UpgradeToX()  //
   SpinWithBackoff(
       [](std::atomic_uint64_t *lock) -> bool {
         auto cur = lock->load(kRelaxed);
-        return cur == kSIXLock && lock->compare_exchange_weak(cur, kXLock, kRelaxed, kRelaxed);
+        return cur == kSIXLock && lock->compare_exchange_weak(cur, kXLock, kAcquire, kRelaxed);
       },
       &(dest->lock_));
 
